@@ -242,6 +242,15 @@ def _worker_inner(modname, builds, known, w, seed, tier, deadline, nworkers):
                 failing["shrunk"] = True
                 raise AssertionError(bad[0].msg)
 
+        # watchdog: should one example (generation or judging) ever take minutes, the worker is stopped a few minutes
+        # after the budget instead of holding up the whole check; what it had judged until then still counts
+        import signal
+
+        def _alarm(signum, frame):
+            state["watchdog"] = True
+            raise _BudgetExhausted()
+        signal.signal(signal.SIGALRM, _alarm)
+        signal.alarm(int(max(1, deadline - time.time()) + SHRINK_S + 240))
         try:
             prop()
         except _BudgetExhausted:
@@ -254,9 +263,15 @@ def _worker_inner(modname, builds, known, w, seed, tier, deadline, nworkers):
         except Exception as e:     # harness bug: report as broken, not as violation
             if not failing:
                 stats.hyp_error = "harness exception: " + traceback.format_exc()
+    try:
+        signal.alarm(0)
+    except NameError:
+        pass
     d = stats.to_dict()
     d["worker"] = w
     d["enum_total"] = enum_total
+    if per_worker > 0 and check.strategy(tier) is not None and not failing and state.get("watchdog"):
+        d["note"] = "worker %d was stopped by the watchdog (one example ran for minutes)" % w
     if failing:
         failing.pop("t0", None)
         d["failing"] = dumps(failing)
@@ -419,6 +434,8 @@ def main(argv=None):
             merged["enum_total"] = max(merged["enum_total"], r.get("enum_total", 0))
             if r.get("hyp_error"):
                 merged["hyp_errors"].append("worker %d: %s" % (r["worker"], r["hyp_error"]))
+            if r.get("note"):
+                merged["notes"].append(r["note"])
             if "failing" in r:
                 failing_cases.append(loads(r["failing"]))
         # confirm failures 3x outside the library; report distinct root causes
